@@ -384,6 +384,9 @@ func body(c *hk.Ctx) {
 		sc.expand(nd, "wfl", map[string]string{}, ref)
 	}
 	sc.Expected, sc.WantErr = ref.paths, ref.errReached
+	if sc.WantErr {
+		c.Count("fault.template_error_reached")
+	}
 	yamlDoc := b.String()
 	sc.Template = yamlDoc
 
